@@ -1,0 +1,28 @@
+// Verification hooks (only compiled with `--cfg winterfell_verif`; never part of a normal build).
+//
+// Failpoints let an external runtime monitor switch off ONE commitment check of the verifier at a
+// time, to validate that a forged transcript is consistent with every other check (i.e. that the
+// targeted check is the only thing standing between the forgery and acceptance).
+
+use core::sync::atomic::{AtomicU32, Ordering};
+
+/// FRI layer values are checked against the layer commitment.
+pub const SKIP_FRI_LAYER_CHECK: u32 = 1;
+/// FRI remainder is checked against the remainder commitment.
+pub const SKIP_FRI_REMAINDER_CHECK: u32 = 2;
+/// Queried trace rows are checked against the trace commitments.
+pub const SKIP_TRACE_QUERY_CHECK: u32 = 4;
+/// Queried constraint composition rows are checked against the constraint commitment.
+pub const SKIP_CONSTRAINT_QUERY_CHECK: u32 = 8;
+
+static SKIP_MASK: AtomicU32 = AtomicU32::new(0);
+
+/// Sets the mask of checks to skip (0 = none).
+pub fn set_skip_mask(mask: u32) {
+    SKIP_MASK.store(mask, Ordering::SeqCst);
+}
+
+/// Returns true if the check identified by `bit` is currently switched off.
+pub fn skip(bit: u32) -> bool {
+    SKIP_MASK.load(Ordering::SeqCst) & bit != 0
+}
